@@ -5,6 +5,8 @@ import (
 	"go/ast"
 	"go/token"
 	"go/types"
+	"os"
+	"runtime/debug"
 	"sort"
 	"strings"
 
@@ -56,8 +58,11 @@ func t1DecodeNumber(b []int64) (int64, int, bool) {
 	return 0, 0, false
 }
 
-func c20Samples() []int64 {
+// c20Samples: the integers the encoder is evaluated on, and among them the boundary values
+// (powers of two ± 3, the extremes) whose five-byte encodings are also put through the decoder.
+func c20Samples() ([]int64, map[int64]bool) {
 	seen := map[int64]bool{}
+	boundary := map[int64]bool{}
 	var out []int64
 	add := func(x int64) {
 		if x < -(1<<31) || x > (1<<31)-1 || seen[x] {
@@ -71,6 +76,14 @@ func c20Samples() []int64 {
 	}
 	for k := uint(0); k <= 31; k++ {
 		for d := int64(-3); d <= 3; d++ {
+			boundary[(int64(1)<<k)+d] = true
+			boundary[-(int64(1)<<k)+d] = true
+		}
+	}
+	boundary[-(1 << 31)] = true
+	boundary[(1<<31)-1] = true
+	for k := uint(0); k <= 31; k++ {
+		for d := int64(-3); d <= 3; d++ {
 			add((int64(1) << k) + d)
 			add(-(int64(1) << k) + d)
 		}
@@ -78,149 +91,99 @@ func c20Samples() []int64 {
 	add(-(1 << 31))
 	add((1 << 31) - 1)
 	sort.Slice(out, func(i, j int) bool { return out[i] < out[j] })
-	return out
+	return out, boundary
 }
 
 func runC20(c *Ctx) {
+	// many small evaluations next to a large live heap (the SSA program): collect less often
+	defer debug.SetGCPercent(debug.SetGCPercent(300))
 	info := c.info("type1")
 
-	// ---------- encoder
-	encFD := c.funcDecl("type1", "", "appendInt")
-	xParam := info.Defs[encFD.Type.Params.List[1].Names[0]]
+	// ---------- encoder: appendInt evaluated on the SSA form with a concrete integer; the result
+	// is the list of bytes appended to an empty buffer (variadic append, append of a slice literal
+	// and the encoding/binary appenders are all the same thing to the evaluator)
+	encFn := c.fn("type1", "appendInt")
 	encode := func(x int64) (bytes []int64, err error) {
-		defer func() {
-			if r := recover(); r != nil {
-				if e, ok := r.(evalErr); ok {
-					err = e
-					return
-				}
-				panic(r)
+		ev := &ssaEval{c: c, bind: map[ssa.Value]sv{}, mem: map[string]sv{}}
+		ret := ev.runFunc(encFn, []sv{{k: svNil}, intV(x)})
+		if len(ret) != 1 || ev.why != "" {
+			return nil, evalErr{"appendInt could not be evaluated: " + ev.why}
+		}
+		el, ok := ev.elems(ret[0])
+		if !ok {
+			return nil, evalErr{"appendInt does not return the buffer with known bytes appended: " + ret[0].String()}
+		}
+		for _, v := range el {
+			if v.k != svInt {
+				return nil, evalErr{"appendInt appends something that is not a known byte: " + v.String()}
 			}
-		}()
-		env := &aenv{info: info, vars: map[types.Object]aval{xParam: {i: x}}}
-		env.hook = func(e ast.Expr) (aval, bool) {
-			// return append(buf, …): evaluate as a statement-less append
-			return aval{}, false
-		}
-		var out outcome
-		// returns are `return append(buf, b1, b2…)`: collect the args of the returned call
-		left := env.run(encFD.Body.List, false, &out)
-		if !left || out.kind != "return" {
-			return nil, evalErr{"appendInt does not return"}
-		}
-		ret := out.stmts[len(out.stmts)-1].(*ast.ReturnStmt)
-		call, ok := ret.Results[0].(*ast.CallExpr)
-		if !ok || len(call.Args) < 2 {
-			return nil, evalErr{"appendInt does not return append(buf, …)"}
-		}
-		for _, a := range call.Args[1:] {
-			v := env.eval(a)
 			bytes = append(bytes, v.i)
 		}
 		return bytes, nil
 	}
 
-	// ---------- decoder: the number branches at the head of the command loop
-	decFD := c.funcDecl("type1", "decodeInfo", "decodeCharString")
-	// the statement that decodes numbers: the first if chain or tagless switch in the command
-	// loop whose conditions compare the operator byte (a value of type t1op) with constants
-	var numIf ast.Stmt
-	var opVar types.Object
-	isOpVar := func(e ast.Expr) types.Object {
-		for _, id := range identsOf(e) {
-			if v, ok := info.ObjectOf(id).(*types.Var); ok && v.Type().String() == "seehuhn.de/go/postscript/type1.t1op" {
-				return v
-			}
-		}
-		return nil
+	// ---------- decoder: one pass of the command loop of decodeCharString (the machine of the
+	// C06 command table) on the bytes of one number and an empty operand stack.  A number is
+	// recognised by what the pass does: it goes on to the next command with exactly one constant
+	// on the operand stack; the bytes used are those missing from the code that is left.
+	m := c.t1Machine()
+	decPos := m.fn.Pos()
+	type decRes struct {
+		val   int64
+		used  int
+		isNum bool
+		err   error
 	}
-	ast.Inspect(decFD.Body, func(n ast.Node) bool {
-		if numIf != nil {
-			return false
-		}
-		switch st := n.(type) {
-		case *ast.IfStmt:
-			if be, ok := ast.Unparen(st.Cond).(*ast.BinaryExpr); ok && (be.Op == token.LAND || be.Op == token.LEQ || be.Op == token.GEQ || be.Op == token.LSS || be.Op == token.GTR) {
-				if v := isOpVar(st.Cond); v != nil {
-					numIf, opVar = st, v
-				}
-			}
-		case *ast.SwitchStmt:
-			if st.Tag == nil && len(st.Body.List) > 0 {
-				if cl := st.Body.List[0].(*ast.CaseClause); len(cl.List) > 0 {
-					if v := isOpVar(cl.List[0]); v != nil {
-						numIf, opVar = st, v
-					}
-				}
-			}
-		}
-		return true
-	})
-	// the charstring bytes: the []byte parameter of the decoder
-	var codeObj types.Object
-	for _, fl := range decFD.Type.Params.List {
-		if sl, ok := info.TypeOf(fl.Type).Underlying().(*types.Slice); ok {
-			if b, ok := sl.Elem().Underlying().(*types.Basic); ok && b.Kind() == types.Uint8 && len(fl.Names) > 0 {
-				codeObj = info.Defs[fl.Names[0]]
-			}
-		}
-	}
+	decCache := map[string]decRes{}
+	nDec := 0
+	var decode1 func(code []byte) (val int64, used int, isNum bool, err error)
 	decode := func(b []int64) (val int64, used int, isNum bool, err error) {
-		defer func() {
-			if r := recover(); r != nil {
-				if e, ok := r.(evalErr); ok {
-					err = e
-					return
-				}
-				panic(r)
-			}
-		}()
-		env := &aenv{info: info, vars: map[types.Object]aval{opVar: {i: b[0]}}}
-		env.hook = func(e ast.Expr) (aval, bool) {
-			switch e := e.(type) {
-			case *ast.IndexExpr:
-				if id, ok := e.X.(*ast.Ident); ok && info.ObjectOf(id) == codeObj {
-					k, ok := constIntOf(info, e.Index)
-					if ok && int(k) < len(b) {
-						return aval{i: b[k]}, true
-					}
-				}
-			case *ast.CallExpr:
-				if id, ok := e.Fun.(*ast.Ident); ok && id.Name == "len" && len(e.Args) == 1 {
-					if a, ok := e.Args[0].(*ast.Ident); ok && info.ObjectOf(a) == codeObj {
-						return aval{i: int64(len(b))}, true
-					}
-				}
-			}
-			return aval{}, false
+		code := make([]byte, len(b))
+		for i, v := range b {
+			code[i] = byte(v)
 		}
-		var out outcome
-		left := env.stmt(numIf, true, &out)
-		if !left || out.kind != "continue" {
+		if r, ok := decCache[string(code)]; ok {
+			return r.val, r.used, r.isNum, r.err
+		}
+		val, used, isNum, err = decode1(code)
+		decCache[string(code)] = decRes{val, used, isNum, err}
+		nDec++
+		return
+	}
+	decode1 = func(code []byte) (val int64, used int, isNum bool, err error) {
+		o := m.runX(code, nil, nil, nil, nil)
+		if o.panics {
+			return 0, 0, false, evalErr{"the decoder panics: " + o.why}
+		}
+		if o.err || o.ret {
 			return 0, 0, false, nil
 		}
-		if len(out.appends) != 1 {
-			return 0, 0, false, evalErr{"number branch does not push exactly one value"}
+		if !o.back {
+			return 0, 0, false, evalErr{"the pass could not be evaluated: " + o.why}
 		}
-		// bytes consumed: code = code[k:]
-		for _, st := range out.stmts {
-			if as, ok := st.(*ast.AssignStmt); ok && len(as.Rhs) == 1 {
-				if sl, ok := as.Rhs[0].(*ast.SliceExpr); ok && sl.Low != nil {
-					if k, ok := constIntOf(info, sl.Low); ok {
-						used = int(k)
-					}
-				}
-			}
+		if len(o.stackVals) != 1 {
+			return 0, 0, false, nil
 		}
-		return out.appends[0], used, true, nil
-	}
-	if numIf == nil {
-		c.fail("NUM-DEC", "type1.(*decodeInfo).decodeCharString", "number branches", decFD.Pos(), "the number-decoding if-chain was not found at the head of the command loop")
-		return
+		if o.code.k != svString || !strings.HasSuffix(string(code), o.code.s) {
+			return 0, 0, false, evalErr{"after the number the decoder does not continue with the rest of the charstring: " + o.code.String()}
+		}
+		used = len(code) - len(o.code.s)
+		switch v := o.stackVals[0]; {
+		case v.k == svFloat && v.f == float64(int64(v.f)):
+			return int64(v.f), used, true, nil
+		case v.k == svInt:
+			return v.i, used, true, nil
+		default:
+			return 0, used, false, evalErr{"the value pushed is not a known integer: " + v.String()}
+		}
 	}
 
 	// ---------- all samples
-	samples := c20Samples()
+	// The encoder is evaluated on every sample.  The decoder is evaluated on every one- and
+	// two-byte encoding the encoder produces and on the five-byte encodings of the boundary
+	// values; its five-byte branch is compared with the grammar byte position by byte position
+	// below.
+	samples, boundary := c20Samples()
 	var encBad, decBad, fmtBad string
 	nOK := 0
 	for _, x := range samples {
@@ -250,6 +213,9 @@ func runC20(c *Ctx) {
 		if len(b) != wantLen && fmtBad == "" {
 			fmtBad = fmt.Sprintf("%d is written in %d byte(s), its proper format has %d", x, len(b), wantLen)
 		}
+		if len(b) > 2 && !boundary[x] {
+			continue
+		}
 		dv, dn, isNum, derr := decode(b)
 		if derr != nil || !isNum || dv != x || dn != len(b) {
 			if decBad == "" {
@@ -260,34 +226,64 @@ func runC20(c *Ctx) {
 		nOK++
 	}
 	c.rep.Extra["integers_evaluated"] = len(samples)
-	c.check(encBad == "", "NUM-ENC", "type1.appendInt", "every integer is written in a form the Type 1 number grammar reads back as itself", encFD.Pos(), fmt.Sprintf("%d integers evaluated", len(samples)), "integer encoder: "+encBad)
-	c.check(fmtBad == "", "NUM-ENC", "type1.appendInt", "one-byte, two-byte and five-byte formats each used exactly in its range", encFD.Pos(), "[-107,107] 1 byte; ±[108,1131] 2 bytes; else 5 bytes", "integer encoder: "+fmtBad)
-	c.check(decBad == "" && encBad == "", "NUM-DEC", "type1.(*decodeInfo).decodeCharString", "the decoder's number branches read every encoder output back as the same integer", numIf.Pos(), fmt.Sprintf("%d round trips through both evaluators", nOK), "number decoder: "+decBad)
-	// decoder against the grammar for all first bytes
+	c.check(encBad == "", "NUM-ENC", "type1.appendInt", "every integer is written in a form the Type 1 number grammar reads back as itself", encFn.Pos(), fmt.Sprintf("%d integers evaluated", len(samples)), "integer encoder: "+encBad)
+	c.check(fmtBad == "", "NUM-ENC", "type1.appendInt", "one-byte, two-byte and five-byte formats each used exactly in its range", encFn.Pos(), "[-107,107] 1 byte; ±[108,1131] 2 bytes; else 5 bytes", "integer encoder: "+fmtBad)
+	if decBad == "" && encBad != "" {
+		decBad = "the round trip is not established, the encoder's output is not the number (see NUM-ENC)"
+	}
+	c.check(decBad == "" && encBad == "", "NUM-DEC", "type1.(*decodeInfo).decodeCharString", "the decoder's number branches read every encoder output back as the same integer", decPos, fmt.Sprintf("%d round trips through both evaluators", nOK), "number decoder: "+decBad)
+	// decoder against the grammar: every first byte with five continuations; every two-byte
+	// number; the five-byte form with every value in every byte position on three backgrounds;
+	// truncated numbers are refused
 	{
 		bad := ""
+		n := 0
+		try := func(b []int64) {
+			n++
+			dv, dn, isNum, derr := decode(b)
+			sv, sn, sIsNum := t1DecodeNumber(b)
+			if derr != nil || isNum != sIsNum || (isNum && (dv != sv || dn != sn)) {
+				if bad == "" {
+					bad = fmt.Sprintf("first byte %d, following %v: decoder gives (%d, %d bytes, number=%v), the book says (%d, %d, %v) %v", b[0], b[1:], dv, dn, isNum, sv, sn, sIsNum, derr)
+				}
+			}
+		}
 		for v0 := int64(0); v0 < 256; v0++ {
 			for _, w := range []int64{0, 1, 107, 108, 255} {
 				b := []int64{v0, w, 0x12, 0x34, 0x56}
 				if v0 == 255 {
 					b = []int64{255, w, 0xff - w, 3, w}
 				}
-				dv, dn, isNum, derr := decode(b)
-				sv, sn, sIsNum := t1DecodeNumber(b)
-				if derr != nil || isNum != sIsNum || (isNum && (dv != sv || dn != sn)) {
-					if bad == "" {
-						bad = fmt.Sprintf("first byte %d, following %v: decoder gives (%d, %d bytes, number=%v), the book says (%d, %d, %v) %v", v0, b[1:], dv, dn, isNum, sv, sn, sIsNum, derr)
-					}
+				try(b)
+			}
+		}
+		for v0 := int64(247); v0 <= 254; v0++ {
+			for w := int64(0); w < 256; w++ {
+				try([]int64{v0, w})
+			}
+		}
+		for pos := 1; pos <= 4; pos++ {
+			for _, bg := range []int64{0x00, 0xff, 0x55} {
+				for v := int64(0); v < 256; v++ {
+					b := []int64{255, bg, bg, bg, bg}
+					b[pos] = v
+					try(b)
 				}
 			}
 		}
-		c.check(bad == "", "NUM-DEC", "type1.(*decodeInfo).decodeCharString", "number ranges 32–246 / 247–250 / 251–254 / 255 with the book's formulas; 0–31 are commands", numIf.Pos(), "256 first bytes × 5 continuations evaluated", "number decoder: "+bad)
+		for _, b := range [][]int64{{247}, {250}, {251}, {254}, {255}, {255, 1}, {255, 1, 2}, {255, 1, 2, 3}} {
+			// the grammar has no reading of a truncated number: the decoder must refuse it (an
+			// evaluation that ends in an index out of range is reported by decode)
+			try(b)
+		}
+		c.check(bad == "", "NUM-DEC", "type1.(*decodeInfo).decodeCharString", "number ranges 32–246 / 247–250 / 251–254 / 255 with the book's formulas; 0–31 are commands", decPos, fmt.Sprintf("%d byte sequences evaluated", n), "number decoder: "+bad)
 	}
+	c.rep.Extra["decoder_passes_evaluated"] = nDec
 
 	c.fractionEncoder(info)
 	c.noNarrowing()
 	c.positionTracking(info)
-	c.decoderDiv(info, decFD)
+	c.decoderDiv(info, nil)
 }
 
 func (c *Ctx) fractionEncoder(info *types.Info) {
@@ -305,7 +301,7 @@ func (c *Ctx) fractionEncoder(info *types.Info) {
 	}
 	run := func(integral bool, bestAt int64, clamp int) result {
 		res := result{qs: map[int64]bool{}}
-		ev := &ssaEval{c: c, bind: map[ssa.Value]sv{}, mem: map[string]sv{}}
+		ev := &ssaEval{c: c, bind: map[ssa.Value]sv{}, mem: map[string]sv{}, orderMinMax: true}
 		ev.noInline = func(f *ssa.Function) bool {
 			// the integer and command encoders are opaque: func([]byte, T) []byte
 			sig := f.Signature
@@ -366,13 +362,43 @@ func (c *Ctx) fractionEncoder(info *types.Info) {
 			if xs == "x" && ys == "x" {
 				return integral == (op == token.EQL), true
 			}
-			// clamping: R<q> against the int32 limits
-			if strings.HasPrefix(xs, "R") && y.k == svFloat {
-				switch {
-				case op == token.GTR && y.f > 0:
-					return clamp > 0, true
-				case op == token.LSS && y.f < 0:
-					return clamp < 0, true
+			// clamping: the rounded numerator R<q> against the int32 limits, whichever side it is
+			// on and whichever comparison (or min/max) is used
+			{
+				r, lim, rop := x, y, op
+				if strings.HasPrefix(ys, "R") && y.op == "" {
+					r, lim = y, x
+					switch op {
+					case token.LSS:
+						rop = token.GTR
+					case token.LEQ:
+						rop = token.GEQ
+					case token.GTR:
+						rop = token.LSS
+					case token.GEQ:
+						rop = token.LEQ
+					}
+				}
+				limit, isLim := 0.0, false
+				switch lim.k {
+				case svFloat:
+					limit, isLim = lim.f, true
+				case svInt:
+					limit, isLim = float64(lim.i), true
+				}
+				if strings.HasPrefix(r.s, "R") && r.k == svSym && r.op == "" && isLim && limit != 0 {
+					above := rop == token.GTR || rop == token.GEQ
+					below := rop == token.LSS || rop == token.LEQ
+					switch {
+					case limit > 0 && above:
+						return clamp > 0, true
+					case limit > 0 && below:
+						return !(clamp > 0), true
+					case limit < 0 && below:
+						return clamp < 0, true
+					case limit < 0 && above:
+						return !(clamp < 0), true
+					}
 				}
 			}
 			// is this denominator the best so far
@@ -552,7 +578,7 @@ func (c *Ctx) positionTracking(info *types.Info) {
 			continue
 		}
 		okCell := false
-		var problems []string
+		var problems, fewest []string
 		for _, assign := range [][2]int{{0, 1}, {1, 0}} {
 			if len(tracked) > 2 {
 				// other floats carried by the loop are scratch variables
@@ -575,6 +601,9 @@ func (c *Ctx) positionTracking(info *types.Info) {
 			})
 			if !back {
 				problems = []string{"the pass does not come back to the loop: " + ev.why}
+				if fewest == nil {
+					fewest = problems
+				}
 				continue
 			}
 			newOf := func(phi *ssa.Phi) sv {
@@ -605,6 +634,14 @@ func (c *Ctx) positionTracking(info *types.Info) {
 					switch {
 					case strings.HasPrefix(k, "A") && v == 1:
 						targets++
+						// the coordinates of a path command alternate x, y: a delta on the x axis aims
+						// at an even entry of Args, a delta on the y axis at an odd one (this also ties
+						// the two tracked values to their axes, so that the trial assignment of the
+						// other order cannot pass by running through the general form)
+						var idx int
+						if _, err := fmt.Sscanf(k, "A%d", &idx); err != nil || (idx%2 == 0) != (axis == "PX") {
+							problems = append(problems, fmt.Sprintf("delta %d (%s) measures coordinate %s of the command against the tracked position of the other axis", i+1, linString(l), k))
+						}
 					case k == axis:
 					case strings.HasPrefix(k, "e") && v == -1:
 					default:
@@ -634,12 +671,22 @@ func (c *Ctx) positionTracking(info *types.Info) {
 					problems = append(problems, fmt.Sprintf("the tracked %s becomes %s, expected %s (the position must advance by what was written, not by what was asked for)", ax.name, linString(l), linString(want)))
 				}
 			}
+			if os.Getenv("PSA_DEBUG_POS") != "" {
+				fmt.Printf("NUM-POS %s/%s assign=%v back=%v why=%s\n", cl.op, cl.shape, assign, back, ev.why)
+				for _, r := range reqs {
+					fmt.Printf("    %s = number(%s)\n", r.e, linString(linOf(r.delta)))
+				}
+				fmt.Printf("    problems: %v\n", problems)
+			}
 			if len(problems) == 0 {
 				okCell = true
 				break
 			}
+			if fewest == nil || len(problems) < len(fewest) {
+				fewest = problems
+			}
 		}
-		c.check(okCell, "NUM-POS", fname, construct, fn.Pos(), fmt.Sprintf("%d numbers written", len(reqs)), "position tracking: "+joinMax(problems, 3))
+		c.check(okCell, "NUM-POS", fname, construct, fn.Pos(), fmt.Sprintf("%d numbers written", len(reqs)), "position tracking: "+joinMax(fewest, 3))
 	}
 	c.rep.Floors["NUM-POS"] = 8
 	_ = n
